@@ -19,14 +19,16 @@ import (
 	"verif/mc/gen/fam"
 	"verif/mc/gen/ir"
 	"verif/mc/gen/ircmp"
+	"verif/mc/props/scalekit"
 )
 
 type Input struct {
-	Family string        `json:"family"`
-	Index  int           `json:"index"`
-	Desc   string        `json:"desc"`
-	Files  []dump.File   `json:"files"`
-	Augs   []fam.AugSpec `json:"augments,omitempty"`
+	Family string         `json:"family"`
+	Index  int            `json:"index"`
+	Desc   string         `json:"desc"`
+	Files  []dump.File    `json:"files"`
+	Augs   []fam.AugSpec  `json:"augments,omitempty"`
+	Scale  *scalekit.Case `json:"scale,omitempty"`
 }
 
 type fail struct{ fp, exp, obs string }
@@ -92,10 +94,14 @@ func shards(tier string) []string {
 	for i := 0; i < nShards; i++ {
 		out = append(out, fmt.Sprintf("cfg/%d", i), fmt.Sprintf("uses/%d", i), fmt.Sprintf("aug/%d", i))
 	}
-	return out
+	return append(out, scalekit.ShardNames()...)
 }
 
 func run(c *core.Ctx) {
+	if strings.HasPrefix(c.Shard, "scale/") {
+		scalekit.Run(c, c.Shard, scaleCases(c.Tier), checkScale, func(cs scalekit.Case) any { return Input{Scale: &cs} })
+		return
+	}
 	parts := strings.Split(c.Shard, "/")
 	var shard int
 	fmt.Sscanf(parts[1], "%d", &shard)
@@ -151,6 +157,10 @@ func replay(tier string, raw json.RawMessage) (bool, string, string) {
 	var in Input
 	if err := json.Unmarshal(raw, &in); err != nil {
 		return false, "", err.Error()
+	}
+	if in.Scale != nil {
+		v := checkScale(*in.Scale)
+		return v.Fp != "", "scale:" + v.Fp, fmt.Sprintf("expected %s\nobserved %s", v.Exp, v.Obs)
 	}
 	var f *fail
 	i := 0
